@@ -218,6 +218,27 @@ Move(s, n, old, new, ts, nt, asCoded) ==
 MoveAllOrNothing(s, n, old, new, ts, nt, asCoded) ==
     LET r == Move(s, n, old, new, ts, nt, asCoded) IN r.reply = "err" => (r.s = s /\ r.out = {})
 
+\* ---- client.DuplicateNode(n, new): a copy of the live subtree below n, hung below `new`; every visit of a
+\* node on the walk makes a new node (a node below a diamond is copied once per path), so the copy is the
+\* tree of downward paths through live edges that start at n.  Beyond the listed properties.
+\*   refused   when n has no live placement
+\*   intended  the subtree as it is when the call is made
+\*   as coded  the children of a node are read when the walk arrives there: if the new parent lies strictly
+\*             below n the walk meets its own copies and never ends (DupDiverges) - an observation, not a
+\*             finding of a listed property
+LiveDown(s, n) == {c \in DownOf(s.edges, n) : ~DeletedIn(s, <<n, c>>)}
+LivePlacements(s, n) == {u \in UpOf(s.edges, n) : ~DeletedIn(s, <<u, n>>)}
+RECURSIVE PathsFrom(_, _)
+PathsFrom(s, p) == {p} \cup UNION {PathsFrom(s, Append(p, c)) : c \in LiveDown(s, p[Len(p)])}
+DupRefused(s, n) == LivePlacements(s, n) = {}
+RECURSIVE LiveBelowSet(_, _)
+LiveBelowSet(s, S) == LET S2 == S \cup UNION {LiveDown(s, x) : x \in S} IN IF S2 = S THEN S ELSE LiveBelowSet(s, S2)
+DupDiverges(s, n, new) == new # n /\ new \in LiveBelowSet(s, {n})
+\* the copy as a set of paths; the parent of the copy for path p is the copy for Front(p), that of <<n>> is `new`
+DupCopies(s, n) == PathsFrom(s, <<n>>)
+\* the copy is a tree: as many nodes as paths, one parent each, and it is finite (the graph is acyclic)
+DupIsTree(s, n) == \A p \in DupCopies(s, n) : Len(p) >= 1 /\ p[1] = n /\ (Len(p) > 1 => SubSeq(p, 1, Len(p) - 1) \in DupCopies(s, n))
+
 \* ---------------------------------------------------------------- verification and repair
 \* admin.storeVerify / admin.storeMaint (verifyNodeHashes).  C03's last clause says a verification
 \* finds nothing on any store the write path has produced; the rest is beyond the listed properties.
